@@ -9,6 +9,8 @@ import (
 	"math/rand"
 	"os"
 	"sort"
+	"strings"
+	"sync"
 
 	"verifharness/internal/tr"
 )
@@ -102,4 +104,52 @@ func (k *kvFlag) Set(s string) error {
 	}
 	k.m[s] = "1"
 	return nil
+}
+
+// ---- crash journal: a fatal runtime error of the code under test (stack overflow, concurrent map
+// access) cannot be recovered and kills the driver. Drivers that run many inputs note which inputs are
+// in flight (VERIF_JOURNAL), so that the check can find the culprit by re-running those alone, and leave
+// out inputs the check tells them to (VERIF_SKIP: a file of input keys, one per line).
+var journalMu sync.Mutex
+var journalFile *os.File
+var skipKeys map[string]bool
+
+func journalKey(in any) string {
+	b, _ := json.Marshal(in)
+	return string(b)
+}
+
+func journal(tag string, in any) {
+	p := os.Getenv("VERIF_JOURNAL")
+	if p == "" {
+		return
+	}
+	journalMu.Lock()
+	defer journalMu.Unlock()
+	if journalFile == nil {
+		f, err := os.OpenFile(p, os.O_CREATE|os.O_WRONLY|os.O_APPEND, 0644)
+		if err != nil {
+			return
+		}
+		journalFile = f
+	}
+	fmt.Fprintf(journalFile, "%s %s\n", tag, journalKey(in))
+}
+
+func skipInput(in any) bool {
+	journalMu.Lock()
+	defer journalMu.Unlock()
+	if skipKeys == nil {
+		skipKeys = map[string]bool{}
+		if p := os.Getenv("VERIF_SKIP"); p != "" {
+			if b, err := os.ReadFile(p); err == nil {
+				for _, l := range strings.Split(string(b), "\n") {
+					if l != "" {
+						skipKeys[l] = true
+					}
+				}
+			}
+		}
+	}
+	return skipKeys[journalKey(in)]
 }
